@@ -41,6 +41,28 @@ def _reads(o):
     return [e for e in o.effects if e.name == "recv_strict"]
 
 
+def field_dim(run, byte_term, mask, rng):
+    """Range known on this path for the bit field (byte & mask), whatever spelling of the field the code tested."""
+    lo, hi = rng
+    excl = set()
+    for k, fk in run.facts.items():
+        t = run.fact_terms.get(k)
+        if t is None or isinstance(t, C):
+            continue
+        fb = field_bits(t)
+        if fb is None or fb[0].key() != byte_term.key() or fb[1] != mask or fb[2] != 0:
+            continue
+        d = dim_of(run, t, rng)
+        lo, hi = max(lo, d.lo), min(hi, d.hi)
+        excl |= {x for x in fk.excl if isinstance(x, int)}
+    while lo in excl and lo < hi:
+        lo += 1
+    while hi in excl and hi > lo:
+        hi -= 1
+    from ..rulekit import Dim
+    return Dim(lo, hi)
+
+
 def flag_decided_by(run, byte_term, mask, value):
     """A one-bit field that became a constant on this path (by `1 if b & m else 0`, bool(...), or a truthiness test on the
     bit-field term): find the fact that decided it -- a term reading exactly (byte & mask) -- and compare zero-ness.
@@ -78,6 +100,7 @@ def r1(ctx):
     want = {"fin": (1, 0x80, 7), "rsv1": (1, 0x40, 6), "rsv2": (1, 0x20, 5), "rsv3": (1, 0x10, 4),
             "opcode": (1, 0x0F, 0), "mask_value": (0, 0x80, 7)}
     got = {}
+    undecided = {}
     n = 0
     for o in outs:
         f = _frame(o)
@@ -92,6 +115,8 @@ def r1(ctx):
                 hit = flag_decided_by(o.run, b[which], mask, t.v)
                 if hit is not None:
                     got.setdefault(name, []).append((hit, t, o))
+                else:
+                    undecided.setdefault(name, {}).setdefault(t.v, o)
                 continue
             if fb is None or isinstance(t, C):
                 # already decided on this path (bound by a guard): nothing to read off
@@ -103,6 +128,13 @@ def r1(ctx):
         raise AnalysisError("no path of recv_frame builds a frame")
     for name, (which, mask, shift) in want.items():
         lst = got.get(name, [])
+        if not lst and len(undecided.get(name, {})) > 1:
+            # the field takes different constant values on different paths, yet on no path is it tied to its own bit
+            w = next(iter(undecided[name].values()))
+            ctx.ob(f"{Q}:field:{name}", False,
+                   f"{name} takes the values {sorted(undecided[name])} depending on the input, but never according to (byte{2 - which} & {mask:#04x}), "
+                   f"where RFC 6455 5.2 puts it", loc, {"path": path_text(w)})
+            continue
         if not lst:
             raise AnalysisError(f"field {name} is never a bit-field of a header byte")
         bad = [x for x in lst if not x[0]]
@@ -172,6 +204,13 @@ def r2(ctx):
         if masked.lo == masked.hi == 1:
             exp.append(C(4))
         ok = len(sizes) == len(exp) + 1 and all(a == b for a, b in zip(sizes, exp))
+        # the class the path treats the frame as must be the class its 7-bit length field announces
+        ld = field_dim(o.run, b2, 0x7F, (0, 127))
+        want_rng = {"7bit": (0, 125), "16bit": (126, 126), "64bit": (127, 127)}[kind]
+        if not (want_rng[0] <= ld.lo and ld.hi <= want_rng[1]):
+            ctx.ob(f"{Q}:length-class:{kind}:{ld.lo}-{ld.hi}", False,
+                   f"a frame whose 7-bit length field is in [{ld.lo}, {ld.hi}] is read as a {kind} frame (reads {seq}): 126 announces a 16-bit and 127 a 64-bit extended length",
+                   loc, {"path": path_text(o)})
         payload_len = sizes[-1] if sizes else None
         unp = [e for e in o.effects if e.name == "struct.unpack"]
         if kind == "7bit":
